@@ -40,7 +40,7 @@ def sh(cmd, cwd=None, env=None, timeout=3600, inp=None):
 
 
 class Stream:
-    def __init__(self, name, drv, sub, nontrivial=None, descr="", prepare=None, env=None):
+    def __init__(self, name, drv, sub, nontrivial=None, descr="", prepare=None, env=None, cmd=None, fields=None, binary="hrun"):
         self.name = name          # stream name
         self.drv = drv            # extracted generator: coq/gen_<drv>.ml -> build/modeldrv_<drv>
         self.sub = sub            # hrun sub-command
@@ -48,6 +48,9 @@ class Stream:
         self.descr = descr
         self.prepare = prepare    # optional callable(ctx) run before the harness (e.g. generate inspectors)
         self.env = env or {}
+        self.cmd = cmd            # optional shell template replacing the hrun call: {cases} {obs} {root} {cache} {repo}
+        self.fields = fields      # optional projection: keep only these `key=value` items (separated by ';')
+        self.binary = binary      # which harness binary runs the stream (build/<binary>)
 
 
 class Check:
@@ -168,27 +171,47 @@ def run_stream(check, st, tier, seed, only_ids=None, cases_override=None):
     else:
         tiern = "0" if tier == "quick" else "1"
         drv = os.path.join(ROOT, "build", "modeldrv_" + st.drv)
-        rc, out = sh("ulimit -s unlimited 2>/dev/null; %s %s %d > %s" % (drv, tiern, seed, cases_path), timeout=3000)
-        if rc != 0:
-            return {"error": "model driver failed: " + out[-500:]}
+        # the generator is a pure function of (binary, tier, seed): reuse its output
+        key = "%s-%s-%d-%d" % (st.drv, tiern, seed, int(os.path.getmtime(drv) * 1000))
+        cdir = os.path.join(CACHE, "cases")
+        os.makedirs(cdir, exist_ok=True)
+        cfile = os.path.join(cdir, key + ".txt")
+        if not os.path.exists(cfile):
+            for old in os.listdir(cdir):
+                if old.startswith("%s-%s-" % (st.drv, tiern)):
+                    os.remove(os.path.join(cdir, old))
+            rc, out = sh("ulimit -s unlimited 2>/dev/null; %s %s %d > %s.tmp && mv %s.tmp %s" % (drv, tiern, seed, cfile, cfile, cfile), timeout=3000)
+            if rc != 0:
+                return {"error": "model driver failed: " + out[-500:]}
+        import shutil
+        shutil.copyfile(cfile, cases_path)
     env = dict(GOENV)
     env.update(st.env)
     obs_path = os.path.join(wd, "obs.txt")
-    rc, out = sh("%s %s < %s > %s" % (os.path.join(ROOT, "build", "hrun"), st.sub, cases_path, obs_path), env=env, timeout=3000)
+    if st.cmd:
+        cmdline = st.cmd.format(cases=cases_path, obs=obs_path, root=ROOT, cache=CACHE, repo=os.environ.get("VERIF_REPO", "/repo"), wd=wd)
+    else:
+        cmdline = "%s %s < %s > %s" % (os.path.join(ROOT, "build", st.binary), st.sub, cases_path, obs_path)
+    rc, out = sh(cmdline, env=env, timeout=3000)
     if rc != 0:
         return {"error": "harness failed: " + out[-1500:]}
+    def proj(x):
+        if not st.fields or x in ("?", "*"):
+            return x
+        return ";".join(i for i in x.split(";") if i.split("=", 1)[0] in st.fields)
     cases = {}
     order = []
     for line in open(cases_path, encoding="utf-8", errors="replace"):
         f = line.rstrip("\n").split("\t")
         if len(f) >= 5:
+            f[3] = proj(f[3]); f[4] = " || ".join(proj(a) for a in f[4].split(" || "))
             cases[f[0]] = f
             order.append(f[0])
     obs = {}
     for line in open(obs_path, encoding="utf-8", errors="replace"):
         f = line.rstrip("\n").split("\t")
         if len(f) >= 2:
-            obs[f[0]] = f[1]
+            obs[f[0]] = proj(f[1])
     return {"cases": cases, "order": order, "obs": obs}
 
 
@@ -262,7 +285,7 @@ def main(check, argv):
                     nontrivial.add(st.name + "|" + c[2])
                 if len(samples) < 6 and (n_here % max(1, len(r["order"]) // 3) == 1):
                     samples.append({"stream": st.name, "id": cid, "tags": c[1], "input": c[2][:300], "model": c[3][:300], "observed": o[:300]})
-                if o != c[3]:
+                if c[3] != "?" and o != c[3]:
                     corr.append((st, c, o))
                 if not accepted(o, c[4]):
                     specfail.append((st, c, o))
